@@ -362,6 +362,10 @@ class AppProgram(object):
                 return start_response(r["status"], [tuple(h) for h in r["headers"]])
             except BaseException as e:      # noqa
                 rec["start_errors"].append(type(e).__name__)
+                if r.get("catch") and isinstance(e, Exception):
+                    # the application copes with the refusal and carries on with the response it had started
+                    rec["restart_caught"] = True
+                    return write
                 rec["raised"] = "restart:" + type(e).__name__
                 raise
 
@@ -442,7 +446,7 @@ class AppProgram(object):
 
         write = do_start()
         if restart and restart.get("when") == "before_write":
-            write = do_restart()
+            write = do_restart(write)
         if fail == "after_start":
             rec["raised"] = "app:after_start"
             raise app_exception(p, "app failure after start_response")
@@ -459,7 +463,7 @@ class AppProgram(object):
                     rec["raised"] = "write:" + type(e).__name__
                     raise
                 if restart and restart.get("when") == "after_write" and i == 0:
-                    write = do_restart()
+                    write = do_restart(write)
             rest = chunks[nw:]
             if mode == "write":
                 rec["completed"] = True
